@@ -1316,6 +1316,13 @@ def concurrent_writer_case(ctx):
                     os.rename(path, writing[path][0])          # the writer finishes: write_atomic's rename
                 return os.lstat(path, *a, **kw)
 
+            def stat(self, path, *a, **kw):
+                # a walk that asks for the age through stat() meets the same writer
+                if path in writing and path not in renamed:
+                    renamed.append(path)
+                    os.rename(path, writing[path][0])
+                return os.stat(path, *a, **kw)
+
         with patched(fsmod, 'os', _Os()), contextlib.redirect_stdout(io.StringIO()):
             cleanup(tasks, concurrency=1, dry_run=False, skip_geoms_for_last_levels=0, progress_logger=None)
         fresh = {c for tmp, (p, c) in writing.items() if tmp in renamed}
